@@ -6,8 +6,11 @@ package main
 
 import (
 	"fmt"
+	"math/big"
 	"strings"
 )
+
+type bigIntT = big.Int
 
 type MemKind int
 
@@ -19,7 +22,17 @@ const (
 	MHavoc                // range (region, [lo, hi)) replaced by fresh contents
 	MMerge                // control-flow join
 	MHavocRegions         // every index of the listed regions replaced by fresh contents
+	MHavocFresh           // every region allocated after `seq` replaced by fresh contents
 )
+
+// writeLog, when set, records the region of every write to a two-key memory.
+var writeLog func(name string, region *Term)
+
+func logWrite(m *Mem, region *Term) {
+	if writeLog != nil && len(m.ksort) == 2 {
+		writeLog(m.name, region)
+	}
+}
 
 type Mem struct {
 	id    int
@@ -104,6 +117,9 @@ func (m *Mem) Write(keys []*Term, val *Term) *Mem {
 	if val.sort != m.sort {
 		panic(fmt.Sprintf("mem %s: write sort %v into %v", m.name, val.sort, m.sort))
 	}
+	if len(keys) == 2 {
+		logWrite(m, keys[0])
+	}
 	n := m.derive(MWrite)
 	n.keys = keys
 	n.val = val
@@ -114,18 +130,21 @@ func (m *Mem) Copy(region, dst, n *Term, src *Mem, srcRegion, srcOff *Term) *Mem
 	if n.IsConst() && n.val.Sign() == 0 {
 		return m
 	}
+	logWrite(m, region)
 	x := m.derive(MCopy)
 	x.region, x.dst, x.n, x.src, x.srcRegion, x.srcOff = region, dst, n, src, srcRegion, srcOff
 	return internMem(x)
 }
 
 func (m *Mem) Fill(region *Term, val *Term) *Mem {
+	logWrite(m, region)
 	x := m.derive(MFill)
 	x.region, x.val = region, val
 	return internMem(x)
 }
 
 func (m *Mem) HavocRange(region, lo, hi *Term) *Mem {
+	logWrite(m, region)
 	x := m.derive(MHavoc)
 	x.region, x.lo, x.hi = region, lo, hi
 	x.uf = FreshName("hv." + m.name)
@@ -139,6 +158,14 @@ func (m *Mem) HavocRegions(regions []*Term) *Mem {
 	x := m.derive(MHavocRegions)
 	x.regions = regions
 	x.uf = FreshName("hvr." + m.name)
+	return internMem(x)
+}
+
+// HavocFresh replaces the contents of every region allocated after seq.
+func (m *Mem) HavocFresh(seq uint64) *Mem {
+	x := m.derive(MHavocFresh)
+	x.lo = BVConstU(0xF000000000000000+seq, RegionSort)
+	x.uf = FreshName("hvf." + m.name)
 	return internMem(x)
 }
 
@@ -248,6 +275,19 @@ func (m *Mem) Read(keys []*Term) *Term {
 			stack = append(stack, pend{cur, c, UF(cur.uf, cur.sort, keys...)})
 			cur = cur.prev
 			continue
+		case MHavocFresh:
+			if regionMask(keys[0])&(1<<15) == 0 {
+				cur = cur.prev
+				continue
+			}
+			c := BVUlt(cur.lo, keys[0])
+			if c == False {
+				cur = cur.prev
+				continue
+			}
+			stack = append(stack, pend{cur, c, UF(cur.uf, cur.sort, keys...)})
+			cur = cur.prev
+			continue
 		case MMerge:
 			tail = Ite(cur.cond, cur.a.Read(keys), cur.b.Read(keys))
 			cur.cache[ks] = tail
@@ -275,6 +315,9 @@ func EqOff(a, b *Term) *Term {
 	if a == b {
 		return True
 	}
+	if a.sort == RegionSort && regionMask(a)&regionMask(b) == 0 {
+		return False
+	}
 	if a.sort != BoolSort && !(a.IsConst() && b.IsConst()) {
 		ba, ca := splitOff(a)
 		bb, cb := splitOff(b)
@@ -294,4 +337,31 @@ func EqOff(a, b *Term) *Term {
 		}
 	}
 	return Eq(a, b)
+}
+
+// regionClass records, for region-valued variables, the set of allocation
+// classes (top nibble of the id) the value can belong to.
+var regionClass = map[int]uint16{}
+
+const (
+	maskPreMutable uint16 = 0x0FFF | 1<<14
+	maskPreString  uint16 = 1 | 1<<12 | 1<<13
+)
+
+func regionMask(t *Term) uint16 {
+	switch t.op {
+	case "const":
+		return 1 << uint(new(bigIntT).Rsh(t.val, 60).Uint64())
+	case "var":
+		if m, ok := regionClass[t.id]; ok {
+			return m
+		}
+	case "concat":
+		if t.args[0].IsConst() && t.args[0].sort == 32 {
+			return 1 << uint(t.args[0].val.Uint64()>>28)
+		}
+	case "ite":
+		return regionMask(t.args[1]) | regionMask(t.args[2])
+	}
+	return 0xFFFF
 }
